@@ -405,6 +405,10 @@ SPELL_HINT = {
     '0': (0, 'int'), '0.0': (10, 'float'), '17': (3, 'int'),
     'null': (16, 'none'), '"x"': (18, 'str'), '1_000': (7, 'int'),
     '{x: s}': (None, 'map_any'), 'yes': (None, 'str'), '-0.0': (10, 'float'),
+    # mappings that are no class mapping for a reason other than a type:
+    # a key twice, a key that is no scalar
+    '{x: 1, x: 2}': (None, 'inner'), '{x: 1, y: s, y: t}': (None, 'inner'),
+    '{x: 1, [p]: 2}': (None, 'inner'), '[{x: 1, x: 1}]': (None, 'list_inner'),
 }
 KEY_NAME = {'a': 'a', 'b_c': 'b_c', 'b-c': 'b-c', 'zz': 'zz', '1': '1',
             'true': 'true', '""': ''}
